@@ -45,6 +45,91 @@ CHECKS = {
         design='5/C09'),
 }
 
+LOAD_NOTE = ('Trusted: PyYAML composer and SafeConstructor as modelled (scalar '
+             'constructor table taken from PyYAML itself); user hooks drawn '
+             'from the catalogue\'s effect vocabulary; documents bounded by '
+             'node occurrences per class model; atoms are abstract '
+             'representatives concretised by the renderer.')
+LOAD_TECH = ('TLA+ state machine of compose/process/construct over a mutable '
+             'node graph (YatimlLoad) + declarative reference (LoadRef), '
+             'explored exhaustively by TLC within per-model bounds; every '
+             'terminal behaviour replayed into load_function (spec->code)')
+
+
+def load_check(text, design):
+    return dict(engine='YatimlLoad', technique=LOAD_TECH, text=text,
+                note=LOAD_NOTE, design=design)
+
+
+CHECKS.update({
+    'C01': load_check(
+        'TLC evaluates TypeSafe (result conforms to the document type all the '
+        'way down) and CtorArgsConform (every constructor call made, also in '
+        'loads that fail later, received conforming arguments) in every '
+        'terminal state of the pipeline model, for every catalogue class model '
+        '(incl. permissive recognisers and corrupting savorize hooks) and '
+        'every document within the bound, incl. the empty and aliased ones. '
+        'Each behaviour is executed on the real load function and the '
+        'returned object and the kwargs logged by the generated __init__ are '
+        're-checked by an independent Python conformance function.', '5/C01'),
+    'C02': load_check(
+        'Two independent definitions of loading - the operational pipeline '
+        'and the declarative reference (order-free, alias-free, by-name) - '
+        'are proved equal by TLC on every document within the bound for the '
+        'auto-recognised class models; the real load function must then '
+        'reproduce accept/reject, RecognitionError and the exact value '
+        '(constructor kwargs, defaults, ordered extras, mapping order) on '
+        'every one of those behaviours.', '5/C02'),
+    'C03': load_check(
+        'The reference chooses classes from SETS (most derived matching '
+        'registered concrete classes, or the class named by a tag), so '
+        'agreement of the pipeline with it for every document is order '
+        'independence at model level; the replay loads every behaviour under '
+        'reversed/rotated registration order and reversed Union member order '
+        'and demands the one predicted outcome.', '5/C03'),
+    'C04': load_check(
+        'CtorArgsConform/TypeSafe at model level over documents with tags '
+        'injected at every node (class tags, unknown tags, !!python/*, core '
+        'tags); the replay compares the __init__ call log (also of failing '
+        'loads) with the type-checked calls of the specification, re-checks '
+        'plain data below Any/untyped/extra positions and runs under an audit '
+        'hook with a canary module that nothing may import or call.', '5/C04'),
+    'C08': load_check(
+        'OnlyDocumentedErrors (every failing branch of the pipeline model '
+        'ends in RecognitionError or a YAML error) over all documents within '
+        'the bound incl. duplicate keys, non-string keys, explicit tags on '
+        'every node, invalid scalars for explicit core tags, aliases and '
+        'cycles, raising hooks/constructors; every behaviour executed and the '
+        'type of the escaping exception checked; plus text-level fuzzing.',
+        '5/C08'),
+    'C10': load_check(
+        'The hook/constructor history variable of the pipeline model '
+        '(savorize chains ancestor-first between recognition and the '
+        'constructor call) is compared entry by entry with the call trace '
+        'logged by the generated classes (defining class and cls argument), '
+        'for success and failing loads.', '5/C10'),
+    'C13': load_check(
+        'KeyOrderIrrelevant (the reference is invariant under reversing every '
+        'mapping, values compared with mappings as sets) checked by TLC; every '
+        'behaviour is rendered in flow, block, quoted and canonical style, '
+        'with reversed keys, under List/Sequence/MutableSequence and '
+        'Dict/Mapping/MutableMapping flavours and with an unrelated class '
+        'registered, and all renderings must give the single predicted '
+        'outcome.', '5/C13'),
+    'C17': load_check(
+        'CitesSomething / CitesInsideDocument at model level (every failing '
+        'recognition branch carries cited nodes); every failing behaviour is '
+        'rendered one node per line and the real message is parsed for '
+        'positions, which must exist and lie inside the document; strong '
+        'claim on single-point corruptions of valid documents.', '5/C17'),
+    'C18': load_check(
+        'Aliases are second references to one mutable node in the pipeline '
+        'model; TLC checks pipeline(doc) = reference(expanded doc) for every '
+        'sharing pattern within the bound, incl. cycles; the replay loads the '
+        'aliased and the expanded rendering and demands equal outcomes and '
+        'an error (not RecursionError) for cycles.', '5/C18'),
+})
+
 NOT_YET = 'check not built yet (work in progress; see DESIGN.md section 5)'
 
 
